@@ -34,7 +34,7 @@ static std::pair<float, Solution> findRoot(
 
     float r = e.value(pos, *tape);
     bool converged = false;
-    while (!converged && fabs(r) >= EPSILON && --gas)
+    while (!converged && fabs(r) >= EPSILON && gas && --gas)
     {
         // Evaluate and update our local gradient
         for (auto& d : e.gradient(pos, *tape))
